@@ -68,8 +68,15 @@ def densifyWith (short : K → Pt K → Pt K → Bool) (E : Env K) (r : K) : Lis
   | [] => if r ≤ 0 then .error .valueError else .error .indexError   -- `coords[0]`
   | p :: rest => if r ≤ 0 then .error .valueError else .ok (p :: densifyFrom short E r p rest)
 
-/-- `densify` of the repaired tree -/
+/-- `densify` of the repaired tree (fix3-C07: after the resolution check an empty coordinate list comes
+back empty — `if len(coords) == 0: return []`; everything else is `densifyWith`, the non-empty core) -/
 def densify (E : Env K) (r : K) (coords : List (Pt K)) : Res (List (Pt K)) :=
+  match coords with
+  | [] => if r ≤ 0 then .error .valueError else .ok []
+  | _ :: _ => densifyWith shortEnough E r coords
+
+/-- `densify` before fix3-C07: `coords[0]` of an empty list is an `IndexError` -/
+def densifyAsFound (E : Env K) (r : K) (coords : List (Pt K)) : Res (List (Pt K)) :=
   densifyWith shortEnough E r coords
 
 /-- `densify` before the `fix:` of F3 (kept for the counterexample; the r ≤ 0 guard is not part of it) -/
